@@ -18,6 +18,8 @@ ENGINES = {
     "e_threads": ("e_threads.cpp", "clang++", BASE + SAN, ["-lrapidcheck", "-lpthread"]),
     "e_threads_tsan": ("e_threads.cpp", "clang++", BASE + ["-fsanitize=thread"], ["-lrapidcheck", "-lpthread"]),
     "e_caps": ("e_caps.cpp", "clang++", BASE + SAN + ["-DCTPG_VERIF_BOUNDS"], ["-lrapidcheck", "-lpthread"]),
+    "e_bytes_fuzz": ("e_bytes_fuzz.cpp", "clang++", ["-std=gnu++17", "-g", "-O1", "-DCTPG_VERIF", "-DCTPG_VERIF_BOUNDS", "-fno-omit-frame-pointer", "-fbracket-depth=1024", "-fconstexpr-steps=100000000",
+                     "-fsanitize=fuzzer,address,undefined", "-fno-sanitize-recover=undefined"], ["-lpthread"]),
     "e_helpers": ("e_helpers.cpp", "clang++", ["-std=gnu++17", "-O0", "-DCTPG_VERIF", "-fbracket-depth=1024"], ["-lrapidcheck", "-lpthread"]),
     "e_lexer": ("e_lexer.cpp", "clang++", BASE + SAN + ["-DCTPG_VERIF_BOUNDS"], ["-lrapidcheck", "-lpthread"]),
     "e_regex": ("e_regex.cpp", "clang++", BASE + SAN + ["-DCTPG_VERIF_BOUNDS"], ["-lrapidcheck", "-lpthread"]),
